@@ -472,7 +472,9 @@ func runTrace(t *testing.T, bind *Binding, job *Job, res *Result) {
 	for _, pi := range job.ProgIdx {
 		p := progs[pi]
 		j2 := *job
-		j2.Property = propertyForFamily(p.Family)
+		if j2.Property == "" {
+			j2.Property = propertyForFamily(p.Family)
+		}
 		recs := Protocol(t, bind, &j2, p, acc)
 		for ri, r := range recs {
 			o := *r.Obs
